@@ -176,6 +176,23 @@ def run(tier):
                 final.append(dict(op="scale", src=cur[0], w=w2, hh=h2, hid=hid, hist=j["hist"]))
                 cur = (hid, w2, h2)
         final.append(dict(op="reread", src=j["src"], hist=j["hist"]))
+    # (e) sources of more than 10^9 pixels a side (an already scaled barcode), recorded without their pixels: a request one pixel short of the
+    # source must be refused, one of exactly its size granted (factor arithmetic in floating point loses the last unit there)
+    for (w0, h0, dim) in ((100, 1, 1), (21, 21, 2)):
+        for big in (2000000003, 1000000007, 2147483000):
+            hist_id = 5000000 + len(final)
+            hid += 1
+            src = hid
+            final.append(dict(op="synth", dim=dim, px=[[(x + y) % 2 for x in range(w0)] for y in range(h0)], hasscheme=False, hascs=False, cs=0, hid=src, hist=hist_id))
+            hid += 1
+            huge = hid
+            final.append(dict(op="scale", src=src, w=big, hh=(1 if dim == 1 else big), hid=huge, hist=hist_id, proj="outcome"))
+            for dw in (-1, 0, 1):
+                hid += 1
+                final.append(dict(op="scale", src=huge, w=big + dw, hh=(1 if dim == 1 else big), hid=hid, hist=hist_id, proj="outcome"))
+            if dim == 2:
+                hid += 1
+                final.append(dict(op="scale", src=huge, w=big, hh=big - 1, hid=hid, hist=hist_id, proj="outcome"))
     evs = vlib.run_drive(drive, final, chk.work)
     shards = vlib.shard(evs, 12 if quick else 16, key=lambda e: e["hist"])
     acc, bad, st, tr = vlib.validate_traces(chk.work, "TraceScale", "TraceScale.cfg", shards, timeout=3000, heap="4g")
@@ -186,10 +203,11 @@ def run(tier):
     chk.cov["scale_results"] = len(sc)
     chk.cov["scale_ok"] = sum(1 for e in sc if e["res"]["kind"] == "ok")
     chk.cov["scale_refused"] = sum(1 for e in sc if e["res"]["kind"] == "error")
-    chk.cov["pixels_checked"] = sum(e["res"]["w"] * e["res"]["hh"] for e in sc if e["res"]["kind"] == "ok")
+    chk.cov["pixels_checked"] = sum(e["res"]["w"] * e["res"]["hh"] for e in sc if e["res"]["kind"] == "ok" and "px" in e["res"])
+    chk.cov["giant_requests_judged_without_pixels"] = sum(1 for e in sc if e.get("proj") == "outcome")
     chk.cov["chained_sources"] = len({e["src"] for e in sc} & {e["hid"] for e in sc})
     chk.cov["real_symbol_sources"] = len(sizes)
-    ex = next(e for e in sc if e["res"]["kind"] == "ok" and e["res"]["w"] * e["res"]["hh"] < 80)
+    ex = next(e for e in sc if e["res"]["kind"] == "ok" and "px" in e["res"] and e["res"]["w"] * e["res"]["hh"] < 80)
     chk.sample(dict(scale=dict(src=ex["src"], w=ex["w"], hh=ex["hh"], fill=ex.get("fill"), px=ex["res"]["px"], reflist=ex["res"]["reflist"])))
     seen = set()
     for b in bad:
